@@ -141,7 +141,10 @@ def l3(ctx):
     if ok:
         fe = [f for f in ctx.facts_of(ev, errs[0]) if f[0] == "cmp"]
         fo = [f for f in ctx.facts_of(ev, oks[0]) if f[0] == "cmp"]
-        ok = len(fe) == 1 and fe[0][1] == "Gt" and fe[0][3] == CAP and len(fo) == 1 and fo[0][1] == "Le" and fo[0][3] == CAP and "InsufficientSpace" in show(errs[0]["value"])
+        # one comparison decides (facts come in both spellings: `p > cap` and `cap < p`): Err under prefix > capacity, Ok under prefix <= capacity
+        fe = [f for f in fe if f[3] == CAP]
+        fo = [f for f in fo if f[3] == CAP]
+        ok = len(fe) == 1 and fe[0][1] == "Gt" and len(fo) == 1 and fo[0][1] == "Le" and fe[0][2] == fo[0][2] and "InsufficientSpace" in show(errs[0]["value"])
     yield Ob(key_of("C16-L3", b.path, "iff"), ok, "Err iff prefix_size > capacity", b.loc())
     for name, pat, _, _ in constructors(ctx):
         b = ctx.facts.one(pat)
